@@ -66,10 +66,10 @@
 //!    (probes/c25c27-pA-no-percent-decoding.diff) → VIOLATION after 16 cases.
 //! B. datasource/write/orchestration.rs: the CSV "first batch" flag is never cleared (header written for every
 //!    batch) and C. datasource/write/demux.rs: `EPOCH_DAYS_FROM_CE` off by one (date partition directories one
-//!    day early) — both env-guarded in probes/combined-datasource-env-guarded.diff, run by probes/run-all.sh;
-//!    verdicts in probes/log-all.txt (the run was still queued behind the machine-wide mutrun slots when this
-//!    header was written).
-//! Both candidate repairs (fixes/C25-…, fixes/C27-…) are verified by the same run with the exclusions off.
+//!    day early) — both env-guarded in probes/combined-datasource-env-guarded.diff, run by probes/run-all.sh
+//!    (probes/log-all.txt): B → VIOLATION after 11 cases, C → VIOLATION after 77 cases.
+//! Both candidate repairs (fixes/C25-…, fixes/C27-…) were verified by the same run with the exclusions off
+//! (exit 0 on seeds 0 and 1 each).
 use crate::util::*;
 use arrow::datatypes::{DataType, Schema};
 use datafusion::common::config::{CsvOptions, JsonOptions, TableParquetOptions};
